@@ -282,5 +282,5 @@ def cases(draw):
 
 
 PARTS = [
-    Part('curves', 'hyp', run_case, strategy=cases(), quick=600, thorough=128000, quick_shards=8),
+    Part('curves', 'hyp', run_case, strategy=cases(), quick=1000, thorough=128000, quick_shards=8),
 ]
